@@ -147,15 +147,13 @@ func (p Path) Eval(target dom.Container) (dom.NodeList, dom.Node) {
 	for _, ps := range p {
 		// first try list item
 		if curr.IsList() {
-			if idx, isIndex := ps.IsNumeric(); isIndex {
-				l := curr.(dom.List)
-				if len(l.Items()) > idx {
-					curr = l.Items()[idx]
-					res = append(res, curr)
-				} else {
-					// list index out of bounds
-					return res, nil
-				}
+			l := curr.(dom.List)
+			if idx, isIndex := ps.IsNumeric(); isIndex && idx >= 0 && idx < l.Size() {
+				curr = l.Items()[idx]
+				res = append(res, curr)
+			} else {
+				// not an index, or list index out of bounds
+				return res, nil
 			}
 		} else
 		// regular child within container
